@@ -217,3 +217,221 @@ Section FinalNone.
         * rewrite <- Eall. exact HbotBd.
   Qed.
 End FinalNone.
+
+(* ------------------------------------------------------------------ the hub's answer "through a final cursor" *)
+
+Section ThroughFinal.
+  Variable U : list block.
+  Variables first kept : N.
+  Hypothesis U_id : forall b, In b U -> bid b <> 0 /\ bid b <> bparent b.
+  Hypothesis U_uniq : forall x y, In x U -> In y U -> bid x = bid y -> x = y.
+  Hypothesis U_up : forall x y, In x U -> In y U -> bparent x = bid y -> bnum y < bnum x.
+
+  (* cursor LIB = cursor block (a final cursor): the answer is never the "cursor block stored off the chain" branch (it
+     needs blocks_from_cursor, hence the cursor LIB on the head's segment); it is the part of the segment numbered >= n *)
+  Lemma through_final_shape s V n cu burst :
+    VState U first kept s V -> cu_lib cu = cu_blk cu ->
+    hub_through_cursor s n cu = BOk burst ->
+    exists hd sg pre post,
+      last_sent s = Some hd /\ complete_segment (db s) (bref hd) = Some (sg, true) /\ good_seg sg /\
+      sg = pre ++ post /\ (forall y, In y pre -> snum y < n) /\ (forall y, In y post -> n <= snum y) /\
+      burst = map (snap_event s hd) post /\
+      (pre = [] -> post <> [] -> exists x0 r, post = x0 :: r /\ snum x0 = n).
+  Proof.
+    intros HV Hfc Hb.
+    destruct (vstate_facts U first kept U_id U_uniq U_up s V HV) as (_ & _ & W & hd & Hls & _).
+    (* the cursor block is on the head's segment whenever the segment is asked *)
+    assert (Hon : rn (cu_blk cu) <? n = false ->
+              forall hd' sg', last_sent s = Some hd' -> complete_segment (db s) (bref hd') = Some (sg', true) ->
+                find (ri (cu_blk cu)) (store (db s)) <> None -> block_in (ri (cu_blk cu)) sg' = true).
+    { intros En hd' sg' Hls' Eseg' _. rewrite Hls in Hls'. injection Hls' as <-.
+      destruct (block_in (ri (cu_blk cu)) sg') eqn:Eblk; [reflexivity|]. exfalso.
+      unfold hub_through_cursor in Hb. rewrite En in Hb. unfold blocks_through_cursor in Hb.
+      destruct (has_lib (db s)); [|discriminate]. cbn [negb] in Hb. rewrite Hls, Eseg' in Hb.
+      destruct sg' as [|s0 sg0]; [discriminate|].
+      destruct (n <? snum s0); [discriminate|]. rewrite Eblk in Hb.
+      destruct (complete_segment (db s) (cu_blk cu)) as [[csg [|]]|]; try discriminate.
+      2:{ destruct csg; discriminate. }
+      destruct csg as [|c0 csg0]; [discriminate|].
+      destruct (n <? snum c0); [discriminate|].
+      destruct (through_branch (c0 :: csg0) n cu hd []); [|discriminate].
+      destruct (blocks_from_cursor s cu) as [evs| | |] eqn:Ebc; try discriminate.
+      destruct (c05_no_lib_no_source_proof s cu) as (_ & _ & _ & _ & H5).
+      exact (H5 hd (s0 :: sg0) Hls Eseg' (eq_ind_r (fun r => block_in (ri r) (s0 :: sg0) = false) Eblk Hfc) evs Ebc). }
+    destruct (rn (cu_blk cu) <? n) eqn:En.
+    - (* the cursor block lies below n: as from a block number *)
+      unfold hub_through_cursor in Hb. rewrite En in Hb.
+      pose proof (c09_from_num_proof s n W) as Hspec. unfold from_num_spec in Hspec. rewrite Hb in Hspec.
+      destruct Hspec as (hd' & sg & pre & x & suf & (_ & Hls' & Eseg & Hsg & Hnx & Hpre & Hsuf) & Hevs & _).
+      rewrite Hls in Hls'. injection Hls' as <-.
+      destruct (vstate_segment U first kept U_id U_uniq U_up s V hd sg true HV Hls Eseg) as (Hgood & _ & _).
+      pose proof Hgood as [Hstd _ _ _].
+      assert (Hn : forall y, In y sg -> snum y = bnum (seg_blk y)).
+      { intros y Hy. rewrite Forall_forall in Hstd. exact (proj2 (Hstd y Hy)). }
+      exists hd, sg, pre, (x :: suf). split; [exact Hls|]. split; [exact Eseg|]. split; [exact Hgood|]. split; [exact Hsg|].
+      split; [|split; [|split; [exact Hevs|]]].
+      + intros y Hy. rewrite (Hn y); [apply Hpre; exact Hy | rewrite Hsg; apply in_or_app; left; exact Hy].
+      + intros y [<-|Hy].
+        * rewrite (Hn x); [lia | rewrite Hsg; apply in_or_app; right; left; reflexivity].
+        * rewrite (Hn y); [specialize (Hsuf y Hy); lia | rewrite Hsg; apply in_or_app; right; right; exact Hy].
+      + intros _ _. exists x, suf. split; [reflexivity|]. rewrite (Hn x); [exact Hnx | rewrite Hsg; apply in_or_app; right; left; reflexivity].
+    - destruct (hub_through_shape U first kept U_id U_uniq U_up s V n cu burst HV (Hon eq_refl) Hb)
+        as (hd' & sg & pre & post & H1 & H2 & H3 & H4 & H5 & H6 & H7 & H8 & _).
+      exists hd', sg, pre, post. repeat (split; [assumption|]). exact H8.
+  Qed.
+End ThroughFinal.
+
+(* ------------------------------------------------------------------ canonical blocks up to the hub's LIB are on its segment *)
+
+Section SegCanon.
+  Variable U : list block.
+  Variable c : jcfg.
+  Variable canon : list block.
+  Variable w : world.
+
+  Hypothesis U_id : forall b, In b U -> bid b <> 0 /\ bid b <> bparent b.
+  Hypothesis U_uniq : forall x y, In x U -> In y U -> bid x = bid y -> x = y.
+  Hypothesis U_up : forall x y, In x U -> In y U -> bparent x = bid y -> bnum y < bnum x.
+  Hypothesis D_decl : forall b, In b U -> decl_none U b.
+  Hypothesis HcU : Forall (fun x => In x U) canon.
+  Hypothesis Hcl : exists x, lnk x canon.
+  Hypothesis Htip : eventual_tip c w canon.
+
+  Let first := j_first c.
+  Let kept := j_kept c.
+
+  Lemma seg_on_canon wk mm a Fin A V hd sg s0 r b :
+    wk = world_after c mm w -> LOKX U c a Fin A wk ->
+    VStateX U first kept a Fin A (h_f (w_hub wk)) V ->
+    last_sent (h_f (w_hub wk)) = Some hd -> complete_segment (db (h_f (w_hub wk))) (bref hd) = Some (sg, true) ->
+    sg = s0 :: r -> In b canon -> snum s0 <= bnum b -> bnum b <= bnum (libblk a Fin) ->
+    exists x, In x sg /\ seg_blk x = b.
+  Proof.
+    intros Ewk HLX HX Hls Eseg Esg Hbc Hlo Hhi. set (Lj := libblk a Fin) in *.
+    destruct (vstatex_segment U first kept U_id U_uniq U_up a Fin A _ V hd sg HX Hls Eseg) as (lo & xLj & hi & Hsplit & HbLj & _ & Hgood & HsU). fold Lj in HbLj.
+    destruct Hgood as [Hstd Hlk Hinc Hnd].
+    destruct (seg_linked_all sg Hlk Hstd) as [y Hly].
+    assert (HS : lnk y (map seg_blk lo ++ [Lj])).
+    { rewrite Hsplit, map_app in Hly. cbn [map] in Hly. rewrite HbLj in Hly.
+      change (Lj :: map seg_blk hi) with ([Lj] ++ map seg_blk hi) in Hly. rewrite app_assoc in Hly. eapply linked_prefix. exact Hly. }
+    assert (HSU : Forall (fun z => In z U) (map seg_blk lo ++ [Lj])).
+    { apply Forall_forall. intros z Hz. rewrite Forall_forall in HsU. apply in_app_or in Hz as [Hz|[<-|[]]].
+      - apply in_map_iff in Hz as (q & <- & Hq). apply HsU. rewrite Hsplit. apply in_or_app. left. exact Hq.
+      - rewrite <- HbLj. apply HsU. rewrite Hsplit. apply in_or_app. right. left. reflexivity. }
+    destruct (chain_of_run U c canon w U_id U_uniq U_up D_decl HcU Hcl Htip wk a Fin A mm Ewk HLX) as (C & [xc HlC] & HCU & HcC & HFC).
+    destruct (vstatex_rev U first kept U_id U_uniq U_up a Fin A _ V HX) as (prej & _ & EAF & _ & _ & _). fold Lj in EAF.
+    assert (HLjC : In Lj C) by (apply HFC; rewrite EAF; apply in_or_app; right; left; reflexivity).
+    pose proof (lnk_sorted U U_id U_uniq U_up C xc HlC HCU) as HSC.
+    apply in_split in HLjC as (c1 & c2 & EC).
+    destruct (StronglySorted_split blt c1 Lj c2 (eq_ind _ _ HSC _ EC)) as [Hc1 Hc2].
+    assert (Hl1 : lnk xc (c1 ++ [Lj])).
+    { rewrite EC in HlC. change (Lj :: c2) with ([Lj] ++ c2) in HlC. rewrite app_assoc in HlC. eapply linked_prefix. exact HlC. }
+    assert (H1U : Forall (fun z => In z U) (c1 ++ [Lj])).
+    { rewrite EC in HCU. change (Lj :: c2) with ([Lj] ++ c2) in HCU. rewrite app_assoc in HCU. apply Forall_app in HCU as [H _]. exact H. }
+    (* b lies at or before Lj on C *)
+    assert (Hb1 : In b (c1 ++ [Lj])).
+    { pose proof (HcC b Hbc) as HbC. rewrite EC in HbC. apply in_app_or in HbC as [H|[H|H]].
+      - apply in_or_app. left. exact H.
+      - apply in_or_app. right. left. exact H.
+      - specialize (Hc2 b H). unfold blt in Hc2. lia. }
+    (* the first block of the segment *)
+    assert (Es0 : exists t, map seg_blk lo ++ [Lj] = seg_blk s0 :: t).
+    { rewrite Hsplit in Esg. destruct lo as [|l0 lo']; cbn [app map] in *; injection Esg as E _; [rewrite <- E, HbLj | rewrite <- E]; eauto. }
+    destruct Es0 as [t Es0].
+    assert (Hs0n : snum s0 = bnum (seg_blk s0)).
+    { rewrite Forall_forall in Hstd. apply Hstd. rewrite Esg. left. reflexivity. }
+    assert (HbS : In b (map seg_blk lo ++ [Lj])).
+    { destruct (linked_same_end U U_uniq (map seg_blk lo) c1 y xc Lj HS Hl1 HSU H1U) as [[d Hd]|[d Hd]].
+      - rewrite Hd, <- app_assoc. apply in_or_app. right. exact Hb1.
+      - rewrite Hd, <- app_assoc in Hb1. apply in_app_or in Hb1 as [Hbd|Hb1]; [|exact Hb1]. exfalso.
+        (* d lies below the segment's first block *)
+        assert (HSC' : StronglySorted blt (d ++ (seg_blk s0 :: t) ++ c2)).
+        { rewrite <- Es0. replace (d ++ (map seg_blk lo ++ [Lj]) ++ c2) with C; [exact HSC|]. rewrite EC, Hd, <- !app_assoc. reflexivity. }
+        clear HSC. rename HSC' into HSC.
+        apply in_split in Hbd as (d1 & d2 & Ed). rewrite Ed, <- app_assoc in HSC. cbn [app] in HSC.
+        destruct (StronglySorted_split blt d1 b (d2 ++ (seg_blk s0 :: t) ++ c2) HSC) as [_ HB].
+        specialize (HB (seg_blk s0)). unfold blt in HB.
+        assert (Hin : In (seg_blk s0) (d2 ++ (seg_blk s0 :: t) ++ c2)) by (apply in_or_app; right; left; reflexivity).
+        specialize (HB Hin). lia. }
+    apply in_app_or in HbS as [H|[H|[]]].
+    - apply in_map_iff in H as (x & Ex & Hx). exists x. split; [rewrite Hsplit; apply in_or_app; left; exact Hx | exact Ex].
+    - exists xLj. split; [rewrite Hsplit; apply in_or_app; right; left; reflexivity | rewrite HbLj; exact H].
+  Qed.
+
+  (* the new+irreversible part of an answer "through a final cursor" for the number n of a canonical block b *)
+  Lemma through_irr wk mm a Fin A V n cu burst :
+    wk = world_after c mm w -> LOKX U c a Fin A wk ->
+    VStateX U first kept a Fin A (h_f (w_hub wk)) V -> cu_lib cu = cu_blk cu ->
+    hub_through_cursor (h_f (w_hub wk)) n cu = BOk burst ->
+    let Lj := libblk a Fin in
+    (bnum Lj < n -> filter irr_ev burst = []) /\
+    (forall b, In b canon -> bnum b = n -> n <= bnum Lj ->
+       exists q1 t, map eblk (filter irr_ev burst) = q1 ++ [Lj] /\ q1 ++ [Lj] = b :: t /\
+                    lnk (bparent b) (q1 ++ [Lj]) /\ Forall (fun z => In z U) (q1 ++ [Lj])).
+  Proof.
+    intros Ewk HLX HX Hfc Hb Lj. set (s := h_f (w_hub wk)) in *.
+    pose proof (vstatex_vstate U first kept a Fin A s V HX) as HV.
+    destruct (through_final_shape U first kept U_id U_uniq U_up s V n cu burst HV Hfc Hb)
+      as (hd & sg & pre & post & Hls & Eseg & Hgood & Hsg & Hpre & Hpost & Hevs & Hfirst).
+    destruct (vstatex_rev U first kept U_id U_uniq U_up a Fin A s V HX) as (_ & _ & _ & _ & _ & Hlib).
+    assert (Hm : rn (libref (db s)) = bnum Lj) by (rewrite Hlib; reflexivity).
+    pose proof Hgood as [Hstd _ Hinc _].
+    assert (Hn : forall y, In y sg -> snum y = bnum (seg_blk y)).
+    { intros y Hy. rewrite Forall_forall in Hstd. exact (proj2 (Hstd y Hy)). }
+    assert (Hirr : map eblk (filter irr_ev burst) = filter (fun z => bnum z <=? bnum Lj) (map seg_blk post)).
+    { rewrite Hevs, filter_irr_snap, Hm. reflexivity. }
+    split.
+    - intros Hlt. assert (H : map eblk (filter irr_ev burst) = []).
+      { rewrite Hirr. apply C06_Lists.filter_none. apply Forall_forall. intros z Hz.
+        apply in_map_iff in Hz as (q & <- & Hq). apply N.leb_gt.
+        rewrite <- (Hn q); [specialize (Hpost q Hq); lia | rewrite Hsg; apply in_or_app; right; exact Hq]. }
+      destruct (filter irr_ev burst); [reflexivity | discriminate].
+    - intros b Hbc Hbn Hle.
+      destruct (vstate_segment U first kept U_id U_uniq U_up s V hd sg true HV Hls Eseg) as (_ & HsU & pz & z & Hsgz & _).
+      destruct sg as [|s0 r] eqn:Esg0; [destruct pz; discriminate|]. rewrite <- Esg0 in *.
+      (* the segment starts at or below n *)
+      assert (Hs0 : snum s0 <= n).
+      { destruct pre as [|p0 pre0].
+        - cbn [app] in Hsg. destruct post as [|x0 post0]; [rewrite Esg0 in Hsg; discriminate|].
+          destruct (Hfirst eq_refl ltac:(discriminate)) as (x0' & r' & E & Hx0). injection E as <- <-.
+          rewrite Esg0 in Hsg. injection Hsg as -> _. lia.
+        - rewrite Esg0 in Hsg. cbn [app] in Hsg. injection Hsg as -> _. specialize (Hpre p0 (or_introl eq_refl)). lia. }
+      destruct (seg_on_canon wk mm a Fin A V hd sg s0 r b Ewk HLX HX Hls Eseg Esg0 Hbc ltac:(lia) ltac:(fold Lj; lia)) as (x & Hx & Exb).
+      assert (Hxn : snum x = n) by (rewrite (Hn x Hx), Exb; exact Hbn).
+      (* x is the first element of the answer *)
+      assert (Hxpost : exists suf, post = x :: suf).
+      { rewrite Hsg in Hx. apply in_app_or in Hx as [Hx|Hx]; [specialize (Hpre x Hx); lia|].
+        apply in_split in Hx as (p1 & p2 & Ep). destruct p1 as [|y p1']; [exists p2; exact Ep|]. exfalso.
+        assert (Hy : n <= snum y) by (apply Hpost; rewrite Ep; left; reflexivity).
+        assert (Hyin : In y sg) by (rewrite Hsg, Ep; apply in_or_app; right; left; reflexivity).
+        pose proof (Hn y Hyin) as Hyn.
+        rewrite Hsg, Ep in Hinc. apply StronglySorted_app_r in Hinc. cbn [app] in Hinc. inversion Hinc as [|? ? _ Hall]; subst.
+        rewrite Forall_forall in Hall. assert (Hin : In x (p1' ++ x :: p2)) by (apply in_or_app; right; left; reflexivity).
+        specialize (Hall x Hin). unfold seg_lt in Hall. lia. }
+      destruct Hxpost as [suf Epost]. rewrite Epost in Hsg, Hirr.
+      destruct (good_seg_split sg pre x suf Hgood Hsg) as (_ & _ & Hstdx & Hlkx).
+      assert (HpU : Forall (fun z => In z U) (map seg_blk (x :: suf))).
+      { apply Forall_forall. intros z0 Hz. apply in_map_iff in Hz as (q & <- & Hq). rewrite Forall_forall in HsU. apply HsU.
+        rewrite Hsg. apply in_or_app. right. exact Hq. }
+      assert (Hlsuf : lnk (bid b) (map seg_blk suf)).
+      { pose proof (Forall_inv Hstdx) as [Hx1 _]. rewrite <- Exb, <- Hx1. apply seg_linked; assumption. }
+      cbn [map] in Hirr, HpU. rewrite Exb in Hirr, HpU.
+      assert (Hlall : lnk (bparent b) (b :: map seg_blk suf)) by (cbn [lnk]; auto).
+      pose proof (lnk_sorted U U_id U_uniq U_up _ _ Hlall HpU) as HSB.
+      (* the LIB block is in the answer *)
+      destruct (vstatex_segment U first kept U_id U_uniq U_up a Fin A s V hd sg HX Hls Eseg) as (lo & xLj & hi & Hsplit & HbLj & _).
+      assert (HLjin : In Lj (b :: map seg_blk suf)).
+      { assert (HxLj : In xLj sg) by (rewrite Hsplit; apply in_or_app; right; left; reflexivity).
+        assert (HxLjn : snum xLj = bnum Lj) by (rewrite (Hn xLj HxLj), HbLj; reflexivity).
+        rewrite Hsg in HxLj. apply in_app_or in HxLj as [H|H]; [specialize (Hpre xLj H); lia|].
+        fold Lj in HbLj. rewrite <- HbLj, <- Exb. change (seg_blk x :: map seg_blk suf) with (map seg_blk (x :: suf)). apply in_map. exact H. }
+      apply in_split in HLjin as (q1 & q2 & Eq).
+      exists q1. rewrite Eq in Hirr, HSB, Hlall, HpU.
+      assert (Et : exists t, q1 ++ [Lj] = b :: t).
+      { destruct q1 as [|q0 q1']; cbn [app] in Eq |- *; injection Eq as E _; rewrite <- E; eauto. }
+      destruct Et as [t Et]. exists t.
+      split; [rewrite Hirr; apply sorted_filter_le; exact HSB|]. split; [exact Et|].
+      change (Lj :: q2) with ([Lj] ++ q2) in Hlall, HpU. rewrite app_assoc in Hlall, HpU.
+      split; [eapply linked_prefix; exact Hlall | apply Forall_app in HpU as [H _]; exact H].
+  Qed.
+End SegCanon.
